@@ -54,7 +54,8 @@ def impl_api(case):
         return {"outcome": "skip:no-exact-scale"}
     X = np.zeros((n, 1))
     try:
-        det = PELT(TableCost(table=case["c"], msize=1), penalty_scale=scale, min_segment_length=m).fit(X)
+        det = PELT(TableCost(table=case["c"], msize=1, int_out=bool(core._bits({"n": n, "m": m, "K": case["K"]}, 0, 2))), penalty_scale=scale,
+                   min_segment_length=m).fit(X)
         if det.penalty_ != K:
             return {"outcome": "skip:no-exact-scale"}
         y = det.predict(X)
@@ -73,7 +74,7 @@ def impl_direct(case):
     n, m, K = case["n"], case["m"], float(Fraction(case["K"]))
     X = np.zeros((n, 1))
     try:
-        opt, cps = run_pelt(X, TableCost(table=case["c"]), K, m)
+        opt, cps = run_pelt(X, TableCost(table=case["c"], int_out=bool(core._bits({"n": n, "m": m, "K": case["K"]}, 0, 2))), K, m)
         return {"outcome": "ok", "cps": [int(v) for v in cps], "opt": [core.rat(float(v)) for v in opt],
                 "wellformed": True}
     except Exception as ex:
